@@ -180,7 +180,7 @@ func vfH_C16_separators(tier int) {
 // statement ends where it ends alone and the separator is honoured
 func vfH_C16_sequence(tier int) {
 	kind := vfChoice(len(vfStmtGens))
-	g := &vfGen{tier: tier, budget: 1 + tier, plainWS: true, plainKW: true}
+	g := &vfGen{tier: tier, budget: 1, sub: 1 + tier, plainWS: true, plainKW: true}
 	vfStmtGens[kind].gen(g)
 	first := g.text()
 	var second, sep string
